@@ -688,6 +688,19 @@ QuietOK(ms) ==
 
 Quiet(ms) == QuietOK(ms) /\ UNCHANGED bvars
 
+\* The broker's own view of its state at a quiescence point, read through its public services (SubscriptionService.Iterate,
+\* ClientService.IterateClient / IterateSession): for every client that both sides see online, the stored subscriptions are
+\* exactly the ones this specification holds (filter as subscribed, granted QoS), and it has a stored session; a connection the
+\* specification has up is registered.  (Clients only one side sees online - a socket the broker is still tearing down - and
+\* sessions within their expiry window are not compared.)
+ViewOK(vsubs, vonline, vsessions) ==
+  LET both == {c \in SeqToSet(vonline) : Online(c)}
+      real == {[c |-> x.c, n |-> x.n, q |-> x.q] : x \in {y \in SeqToSet(vsubs) : y.c \in both}}
+      mine == {[c |-> s.c, n |-> s.n, q |-> s.o.qos] : s \in {y \in subs : y.c \in both}}
+  IN /\ real = mine
+     /\ both \subseteq SeqToSet(vsessions)
+     /\ \A c \in DOMAIN sess : Online(c) => c \in SeqToSet(vonline)
+
 \* OnMsgDropped reported by the broker (hook event): the copy of `tag` queued for session c was dropped.
 \* reason "expired": only for a copy whose lifetime is (about to be) over; "toolarge": only for a copy larger than the
 \* subscriber's Maximum Packet Size (those are not owed in the first place, see Fits); "full": the session queue is full.
